@@ -1,4 +1,5 @@
 import CandidModel.RustId
+import CandidModel.Proofs.RustFields
 /-
   C18 — the generated Rust binding defines types with the same Candid meaning.
   Property theorems only.  Identifier level: the label the derive macro computes for an emitted field or variant
@@ -70,5 +71,36 @@ field names (`fooBar`, `foo_bar` → `foo_bar`) -/
 theorem case_conversion_not_injective :
     toUpperCamel "a_b".toList = toUpperCamel "aB".toList ∧ toSnake "fooBar".toList = toSnake "foo_bar".toList := by
   decide
+
+/-- **Every field of a record and every tag of a variant keeps its label**, also when its identifier had to be changed
+because an earlier field of the same type was given the same one (`fooBar` / `foo_bar`): the changed identifier carries
+a rename. -/
+theorem emitted_fields_keep_their_labels (case : Case) : ∀ (ids taken : List String),
+    (emitFields case ids taken).map (fun p => deriveLabel p.1 p.2) = ids := by
+  intro ids
+  induction ids with
+  | nil => intro taken; rfl
+  | cons id rest ih =>
+    intro taken
+    simp only [emitFields, List.map_cons, ih, List.cons.injEq, and_true]
+    split
+    · rename_i heq
+      rw [heq]; exact emitted_label_is_source_label id case
+    · rfl
+
+/-- **The identifiers given to the fields of one record (the tags of one variant) are pairwise distinct as rustc
+compares them** (`r#x` and `x` are one identifier), whatever the labels: the emitted struct / enum has no duplicate
+member. -/
+theorem emitted_field_identifiers_are_distinct (case : Case) (ids : List String) :
+    ((emitFields case ids []).map fun p => unraw p.1).Nodup :=
+  (emitFields_distinct case ids []).2
+
+/-- non-vacuity: three labels that all convert to `foo_bar`, and a raw identifier that meets a plain one after the
+first repair (`type`, `Type` → `r#type`, `r#type_`; `type_` → `type_`) -/
+example :
+    emitFields .snake ["fooBar", "foo_bar", "FooBar", "type", "Type", "type_"] [] =
+      [("foo_bar", some "fooBar"), ("foo_bar_", some "foo_bar"), ("foo_bar__", some "FooBar"),
+       ("r#type", none), ("r#type_", some "Type"), ("type__", some "type_")] := by
+  decide +kernel
 
 end Candid.Props.C18
